@@ -135,6 +135,32 @@ def check_consts_c(ctx, b, witness, is_cpp):
                 ctx.distinct((b.lang, "const", type(c.data_type).__name__, c.data_type.bit_length, str(want)[:24]))
 
 
+def check_sizes_py(ctx, b, R, witness):
+    """Python allocates its own buffer from the advertised bounds: every value, in particular the largest one, must serialize,
+    into no more bytes than advertised."""
+    vectors, meta = [], []
+    for ti, t in enumerate(b.msgs):
+        vals = [("max", M.max_value(t)), ("min", M.min_value(t, 0)), ("min", M.min_value(t, 1))] + [("rand", M.gen_value(R, t, in_range=True, maxlen=50)) for _ in range(4)]
+        for kind, v in vals:
+            vectors.append(dict(op="ser", ti=ti, value=v))
+            meta.append((kind, t))
+    results, _, inc = b.run(vectors)
+    for (kind, t), res in zip(meta, results):
+        ctx.count("evaluations")
+        ctx.count("size_executions")
+        bound = W.bufbound(t)
+        w = dict(witness, base=b.name, type=str(t), kind=kind, advertised=bound)
+        if res["st"] == "exc" and res.get("env_numpy2"):
+            ctx.count("env_numpy2_excluded")
+        elif res["st"] != "ok":
+            ctx.refute(None, "py: serialization of a %s value of %s failed (%s %s) although the object is valid" % (kind, t, res.get("exc"), str(res.get("msg"))[:100]), w)
+        elif res["size"] > bound:
+            ctx.refute(None, "py: serialized size %d of %s exceeds the advertised bound %d" % (res["size"], t, bound), w)
+        else:
+            ctx.count("size_ok")
+            ctx.count("py_size_ok")
+
+
 def check_consts_py(ctx, b, witness):
     rs = b.consts()
     for ti, t in enumerate(b.msgs):
@@ -253,6 +279,8 @@ def run_set(ctx, item, sizes=True):
         ctx.count("bases_built")
         if b.lang == "py":
             check_consts_py(ctx, b, witness)
+            if sizes:
+                check_sizes_py(ctx, b, R, witness)
         else:
             check_consts_c(ctx, b, witness, b.lang == "cpp")
             if sizes:
